@@ -7,6 +7,7 @@ import shutil
 import tempfile
 
 import numpy as np
+from mc.ref.linalg import allclose as _close
 import sympy
 
 from mc.engine import Section, jdump
@@ -203,7 +204,7 @@ def circuits_equal(c, d, check_matrix=True):
             for k in range(2):
                 m = {s: 0.37 + 0.51 * k + 0.13 * j for j, s in enumerate(syms)}
                 A, B = num(x.gate.matrix, m), num(y.gate.matrix, m)
-                if A.shape != B.shape or not np.allclose(A, B, atol=1e-10):
+                if A.shape != B.shape or not _close(A, B, atol=1e-10):
                     return "operation %d: matrices differ at %s" % (i, m)
     if list(c.free_symbols) != list(d.free_symbols) and set(c.free_symbols) != set(d.free_symbols):
         return "circuit free symbols changed"
